@@ -93,7 +93,7 @@ class SFindIter:
                     gl[gid] = span
                 self.pos = end
                 W.mut += 1
-                return True, SMatch(self.string, p, end, gl[1:])
+                return True, SMatch(self.string, p, end, gl[1:], dict(prog.state.groupdict))
             p += 1
         self.pos = n + 1
         W.mut += 1
@@ -241,5 +241,5 @@ def regex_once(I, W, kind, pattern, string, flags):
             gl = [None] * prog.state.groups
             for gid, span in groups:
                 gl[gid] = span
-            return SMatch(string, p, end, gl[1:])
+            return SMatch(string, p, end, gl[1:], dict(prog.state.groupdict))
     return None
